@@ -13,6 +13,7 @@ import PyhamModel.Model.History
 import PyhamModel.Model.WF
 import PyhamModel.Model.Realises
 import PyhamModel.Model.Spell
+import PyhamModel.Model.Agg
 open Pyham
 
 /-! ### s-expressions -/
@@ -236,6 +237,10 @@ def emitNav (H : Ham) (o : Out) : Out := Id.run do
 def emitProfiles (H : Ham) (o : Out) : Out := Id.run do
   let mut o := o
   o := o.put "tpfull" (" ".intercalate ((profileFull H).map featS))
+  o := o.put "tpjson" (" ".intercalate (((profileFullJson H).read []).map fun e =>
+    taxS e.1 ++ "=" ++ toString e.2.1 ++ "," ++ (match e.2.2 with
+      | none => "false"
+      | some (r, du, g, l, dn) => ",".intercalate [onS r, onS du, onS g, onS l, onS dn])))
   for (hid, n) in H.tops do
     o := o.put "tphog" (osS hid ++ "|" ++ " ".intercalate ((profileHog H n).map featS))
   return o
@@ -248,6 +253,7 @@ def emitIham (T : STree) (nm : Naming) (H : Ham) (o : Out) : Out := Id.run do
     o := o.put "ixml" (nodeKeyS n ++ "|" ++ " ".intercalate (sortS (ex.groups.map elemS)))
     o := o.put "idecl" (nodeKeyS n ++ "|" ++ ";".intercalate (sortS (ex.species.map fun s =>
       s.name ++ ":" ++ ",".intercalate (sortS (s.genes.map fun g => g.id ++ "/" ++ kvS g.xrefs)))))
+    o := o.put "ifam" (nodeKeyS n ++ "|" ++ ";".intercalate (sortS ((famData H n).map fun r => r.id ++ "/" ++ r.species ++ "/" ++ osS r.protId)))
     -- the exporter's spelling as a history: export = its encoding; well-formed; recoverable; realised by n
     let sp := spell false false n
     o := o.put "ispell" (nodeKeyS n ++ "|" ++
@@ -299,8 +305,14 @@ def runQuery (T : STree) (nm : Naming) (inp : Input) (H? : Option Ham) (q : SExp
     | .error e => o.put "verr" (taxS (decTaxon a) ++ "," ++ taxS (decTaxon d) ++ "=" ++ e.toStr)
   | .list [.atom "l", a, d], some H =>
     match lateral H (decTaxon a) (decTaxon d) with
-    | .ok m => o.put "lmap" (taxS (decTaxon a) ++ "," ++ taxS (decTaxon d) ++ "|anc=" ++ taxS m.anc ++ "|" ++
+    | .ok m =>
+      let o := o.put "lmap" (taxS (decTaxon a) ++ "," ++ taxS (decTaxon d) ++ "|anc=" ++ taxS m.anc ++ "|" ++
         " # ".intercalate (sortS (m.maps.map fun e => hmapS H e.2)))
+      o.put "lagg" (taxS (decTaxon a) ++ "," ++ taxS (decTaxon d) ++
+        "|lost=" ++ ";".intercalate (sortS (m.aggLost.map fun e => nodeKeyS e.1 ++ "@" ++ "+".intercalate (sortS (e.2.map taxS)))) ++
+        "|gained=" ++ ";".intercalate (sortS (m.aggGained.map fun e => taxS e.1 ++ "@" ++ "+".intercalate (sortS (e.2.map nodeKeyS)))) ++
+        "|ret=" ++ ";".intercalate (sortS (m.aggRetained.map fun e => nodeKeyS e.1 ++ "@" ++ "+".intercalate (sortS (e.2.map fun r => taxS r.1 ++ ">" ++ nodeKeyS r.2)))) ++
+        "|dup=" ++ ";".intercalate (sortS (m.aggDuplicated.map fun e => nodeKeyS e.1 ++ "@" ++ "+".intercalate (sortS (e.2.map fun r => taxS r.1 ++ ">" ++ ",".intercalate (sortS (r.2.map nodeKeyS)))))))
     | .error e => o.put "lerr" (taxS (decTaxon a) ++ "," ++ taxS (decTaxon d) ++ "=" ++ e.toStr)
   | .list [.atom "atlevel", .str k, g], some H =>
     match H.allLocs.find? (fun l => nodeKeyS l.node == k) with
